@@ -547,7 +547,11 @@ class R:
     def _cmp(s, o, op):
         if isinstance(o, (np.ndarray, Dual)):
             return NotImplemented
-        d = s - R.lift(o)
+        try:
+            o = R.lift(o)
+        except TypeError:
+            return NotImplemented
+        d = s - o
         if not d.f:
             return SB(z3.BoolVal(bool(op(d.coef, 0))))
         return SB(op(d.sign_term(), 0))
